@@ -104,7 +104,7 @@ func (g *G) lit(t ty) string {
 	case tInt:
 		return fmt.Sprint(g.pick(10))
 	case tFloat:
-		return []string{"0.5", "1.5", "2.0", "3.25", "0.0", "(0.0 / 0.0)", "(1.0 / 0.0)"}[g.pick(7)]
+		return []string{"0.5", "1.5", "2.0", "3.25", "0.0", "(0.0 / 0.0)", "(1.0 / 0.0)", "9007199254740992.0", "0.1", "0.559", "4503599627370497.5"}[g.pick(11)]
 	case tBool:
 		return []string{"true", "false"}[g.pick(2)]
 	case tStr:
@@ -135,7 +135,7 @@ func (g *G) expr(t ty, d int) string {
 		f := fs[g.pick(len(fs))]
 		return g.call(f, d-1)
 	}
-	if (t == tStr || t == tArr) && g.pick(4) == 0 || t == tInt && g.pick(8) == 0 {
+	if (t == tStr || t == tArr) && g.pick(4) == 0 || (t == tInt || t == tFloat) && g.pick(8) == 0 {
 		// the order of the operands shows in strings and arrays
 		return g.chain(t, d-1)
 	}
@@ -245,7 +245,16 @@ func (g *G) chain(t ty, d int) string {
 	if t == tInt {
 		ops = []string{"+", "-", "*", "&", "|"}
 	}
+	first := true
 	leaf := func() string {
+		if t == tFloat {
+			// sums of a float and integer constants: every intermediate sum rounds
+			ops = []string{"+", "-", "+"}
+			if !first && g.pick(3) > 0 {
+				return fmt.Sprint(1 + g.pick(9))
+			}
+			first = false
+		}
 		if d > 0 && g.pick(5) == 0 {
 			return g.paren(g.expr(t, d-1))
 		}
